@@ -29,24 +29,25 @@ Theorem invalid_address_no_effects :
     exists e, serve_tile ly cached q = (Err e, []).
 Proof. exact serve_tile_invalid_address. Qed.
 
-(* GetTile-type requests (everything but GetFeatureInfo) with a format that is not the offered one ... *)
+(* GetTile-type requests (everything but GetFeatureInfo) with a format that is not the offered one are refused
+   without effects. *)
 Theorem invalid_format_no_effects :
   forall ly cached q f,
     is_fi (rsvc q) = false -> rfmt q = Some f -> f <> lfmt ly -> exists e, serve_tile ly cached q = (Err e, []).
 Proof. exact serve_tile_invalid_format. Qed.
 
-(* ... or with a dimension value that is neither offered nor "default" / empty (dims_of: WMTS passes the request
-   dimensions, TMS / KML never carry any) are refused without effects. *)
+(* Every tile request - GetTile and GetFeatureInfo - with a dimension value that is neither offered nor "default" /
+   empty (dims_of: WMTS passes the request dimensions, TMS / KML never carry any) is refused without effects. *)
 Theorem invalid_dimension_no_effects :
   forall ly cached q,
-    is_fi (rsvc q) = false -> dimensions_ok ly (dims_of q) = false -> exists e, serve_tile ly cached q = (Err e, []).
+    dimensions_ok ly (dims_of q) = false -> exists e, serve_tile ly cached q = (Err e, []).
 Proof. exact serve_tile_invalid_dimension. Qed.
 
-(* The statement "format or dimension not offered => refused" is FALSE for WMTS GetFeatureInfo in the code as it is
-   (known finding for the dimension part; the format part is behaviour pinned by the test-suite of mapproxy):
-   a request with a format and a dimension value that are not offered is answered and asks the upstream server. *)
-Theorem invalid_format_or_dimension_featureinfo_refuted :
-  exists ly cached q f, is_fi (rsvc q) = true /\ rfmt q = Some f /\ f <> lfmt ly /\ dimensions_ok ly (rdims q) = false /\
+(* The statement "format not offered => refused" is FALSE for WMTS GetFeatureInfo: its FORMAT parameter is not
+   compared with the layer format (behaviour pinned by the test-suite of mapproxy, documented, not a finding);
+   such a request is answered and asks the upstream server. *)
+Theorem invalid_format_featureinfo_refuted :
+  exists ly cached q f, is_fi (rsvc q) = true /\ rfmt q = Some f /\ f <> lfmt ly /\
     fst (serve_tile ly cached q) = Ok /\ snd (serve_tile ly cached q) <> [].
 Proof. exact featureinfo_format_unchecked_witness. Qed.
 
